@@ -1260,3 +1260,123 @@ func runM5c(p *an.Prog, r *an.Result) {
 		r.Triv("-", "no shared slice, map or pointer is handed to a module function outside the configuration phase", token.NoPos, "")
 	}
 }
+
+// ---------------------------------------------------------------------------
+// L1
+
+func init() {
+	register("L1", "no loop stores one and the same slice or map into a collection on every iteration while overwriting it: an object that is filled inside a loop and kept per iteration is allocated inside that loop", runL1)
+}
+
+func runL1(p *an.Prog, r *an.Result) {
+	l1Core(p, r)
+	checkFixture(r, l1Core, []string{"L1Bad"}, []string{"L1Good", "L1Spread"})
+	if r.Counts["reused objects"] == 0 {
+		r.Triv("-", "no object allocated outside a loop is both overwritten and stored per iteration inside it", token.NoPos, "")
+	}
+}
+
+func l1Core(p *an.Prog, r *an.Result) {
+	roles := GetRoles(p)
+	for _, fn := range p.Funcs {
+		if isMainPkg(fn) || p9OutOfScope(p, fn) != "" && !strings.Contains(p9OutOfScope(p, fn), "Scan") {
+			continue
+		}
+		name := roles.Label(fn)
+		an.EachInstr(fn, func(in ssa.Instruction) {
+			v, ok := in.(ssa.Value)
+			if !ok {
+				return
+			}
+			switch in.(type) {
+			case *ssa.MakeSlice, *ssa.MakeMap:
+			case *ssa.Alloc:
+				// a composite literal of slice/array/map type whose address is taken
+				if !in.(*ssa.Alloc).Heap {
+					return
+				}
+			default:
+				return
+			}
+			// aliases of v: itself, slices of it
+			aliases := map[ssa.Value]bool{v: true}
+			var grow func(x ssa.Value)
+			grow = func(x ssa.Value) {
+				if x.Referrers() == nil {
+					return
+				}
+				for _, u := range *x.Referrers() {
+					switch y := u.(type) {
+					case *ssa.Slice:
+						if !aliases[y] {
+							aliases[y] = true
+							grow(y)
+						}
+					case *ssa.MakeInterface:
+						if !aliases[y] {
+							aliases[y] = true
+							grow(y)
+						}
+					}
+				}
+			}
+			grow(v)
+			// written and kept inside a loop that v's allocation is outside of
+			var writes, keeps []ssa.Instruction
+			for a := range aliases {
+				if a.Referrers() == nil {
+					continue
+				}
+				for _, u := range *a.Referrers() {
+					switch y := u.(type) {
+					case *ssa.IndexAddr:
+						if y.X == a && y.Referrers() != nil {
+							for _, uu := range *y.Referrers() {
+								if st, ok := uu.(*ssa.Store); ok && st.Addr == ssa.Value(y) {
+									writes = append(writes, st)
+								}
+							}
+						}
+					case *ssa.MapUpdate:
+						if y.Map == a {
+							writes = append(writes, y)
+						}
+						if y.Value == a {
+							keeps = append(keeps, y)
+						}
+					case *ssa.Store:
+						if y.Val == a {
+							if _, isElem := y.Addr.(*ssa.IndexAddr); isElem {
+								keeps = append(keeps, y)
+							}
+						}
+					}
+				}
+			}
+			if len(writes) == 0 || len(keeps) == 0 {
+				return
+			}
+			for _, k := range keeps {
+				kb := k.Block()
+				if !reachesBlock(kb, kb) {
+					continue // not in a loop
+				}
+				// v is allocated outside the loop that contains the keep
+				if reachesBlock(kb, in.Block()) && reachesBlock(in.Block(), kb) {
+					continue // allocated in the same loop
+				}
+				wIn := false
+				for _, w := range writes {
+					if reachesBlock(w.Block(), kb) && reachesBlock(kb, w.Block()) {
+						wIn = true
+					}
+				}
+				if !wIn {
+					continue
+				}
+				r.Counts["reused objects"]++
+				r.Bad(name, "one "+an.TypeName(v.Type())+" is stored on every iteration and overwritten in between", an.InstrPos(k), fmt.Sprintf("%s allocates it once, before the loop, fills it inside the loop and stores it into a collection each time round: all the stored entries are the same object and end up with the last iteration's content", an.FuncName(fn)))
+			}
+		})
+	}
+}
